@@ -202,11 +202,14 @@ def r03_3(ctx: Ctx):
         for f in ctx.prog.functions_in(ci):
             if f.parent is not None:
                 continue
+            inside_lambda = {id(x) for lam in body_walk(f.node) if isinstance(lam, ast.Lambda) for x in ast.walk(lam)}
             for cs in ctx.res.callsites(f):
                 if cs.kind not in ("call", "ctor") or not isinstance(cs.node, ast.Call):
                     continue
                 if cs.external and cs.external.startswith("scipy.optimize."):
                     continue
+                if id(cs.node) in inside_lambda:
+                    continue  # the objective handed to the optimiser (checked by _objective_forwards_to_wrapper)
                 if any(ctx.eff.has(t, "EVAL") for t in cs.targets):
                     bad.append((cs.node, f"`{norm(cs.node)[:80]}` in {f.short} evaluates the objective outside the optimiser run whose nfev feeds the accumulator: that call is made but never reported"))
         for n, why in bad:
